@@ -10,17 +10,18 @@ package main
 //@   modifies $warnings
 
 //@ func parseRecipient(arg) (r, err)
-//@   call plugin.NewRecipient#1 requires arg0 == arg && hasprefix(arg, "age1")                                      [C17]
-//@   call age.ParseX25519Recipient#1 requires arg0 == arg                                                           [C17 C18]
-//@   call agessh.ParseRecipient#1 requires arg0 == arg                                                              [C17 C18]
+//@   call plugin.NewRecipient#1 requires arg0 == old(arg) && hasprefix(arg0, "age1")                                    [C17]
+//@   call age.ParseX25519Recipient#1 requires arg0 == old(arg)                                                         [C17 C18]
+//@   call agessh.ParseRecipient#1 requires arg0 == old(arg)                                                            [C17 C18]
 //@   ensures#nilxor err == nil ==> r != nil                                                                         [C14 C18]
 
 //@ func parseIdentity(s) (id, err)
-//@   call plugin.NewIdentity#1 requires arg0 == s && hasprefix(s, "AGE-PLUGIN-")                                    [C17]
-//@   call age.ParseX25519Identity#1 requires arg0 == s                                                              [C17 C18]
+//@   call plugin.NewIdentity#1 requires arg0 == old(s) && hasprefix(arg0, "AGE-PLUGIN-")                                  [C17]
+//@   call age.ParseX25519Identity#1 requires arg0 == old(s)                                                            [C17 C18]
 //@   ensures#nilxor err == nil ==> id != nil                                                                        [C14 C18]
 
 //@ func parseIdentities(f) (ids, err)
+//@   ensures#scanerr err == nil ==> calls("Err",1) == old(calls("Err",1)) + 1 && lasterr("Err",1) == nil                          [C13 C18]
 //@   requires f != nil
 //@   loop 1 invariant scanner != nil && n == scanner.$ln && n >= 0
 //@   loop 1 invariant#count len(ids) == keycount(id(scanner), n)                                                    [C18]
@@ -32,6 +33,7 @@ package main
 //@   ensures#nil err != nil ==> ids == nil                                                                         [C14 C18]
 
 //@ func parseRecipientsFile(name) (recs, err)
+//@   ensures#scanerr err == nil ==> calls("Err",1) == old(calls("Err",1)) + 1 && lasterr("Err",1) == nil                          [C13 C18]
 //@   modifies $warnings, stdinInUse
 //@   loop 1 invariant scanner != nil && n == scanner.$ln && n >= 0
 //@   loop 1 invariant#count len(recs) + ($warnings - old($warnings)) == keycount(id(scanner), n)                     [C18]
@@ -100,6 +102,16 @@ package main
 //@ callers filippo.io/age/plugin.NewRecipient only filippo.io/age/cmd/age.parseRecipient                                                    [C17]
 //@ callers filippo.io/age/plugin.openClientConnection only (*filippo.io/age/plugin.Identity).Unwrap, (*filippo.io/age/plugin.Recipient).WrapWithLabels   [C17]
 //@ callers filippo.io/age/cmd/age.parseIdentity only filippo.io/age/cmd/age.parseIdentities                                                  [C17]
+
+// ---- C15: the file system is touched only where the output is opened: no other
+// function of the module creates, removes, renames or truncates a file
+//@ callers os.Create only (*filippo.io/age/cmd/age.lazyOpener).Write                                                     [C15]
+//@ callers os.OpenFile only filippo.io/age/cmd/age-keygen.main, filippo.io/age/cmd/age.withTerminal                                                        [C15]
+//@ callers os.Remove only none                                                                                           [C15]
+//@ callers os.RemoveAll only none                                                                                        [C15]
+//@ callers os.Rename only none                                                                                           [C15]
+//@ callers os.Truncate only none                                                                                         [C15]
+//@ callers os.WriteFile only none                                                                                        [C15]
 
 // ---- C17: a -j / -i value reaches the identity parsers byte for byte
 //@ func (*identityFlags).addPluginFlag(f, value) (err)
@@ -239,3 +251,8 @@ package main
 
 //@ func passphrasePromptForDecryption() (p, err)
 //@   ensures#nil err != nil ==> p == ""                                                                            [C14]
+
+// the terminal is opened for reading and writing only: never created, never truncated
+//@ func withTerminal(f) (err)
+//@   nosafety
+//@   call os.OpenFile#0 requires (arg1 == 1 || arg1 == 2) && (arg0 == "CONIN$" || arg0 == "CONOUT$" || arg0 == "/dev/tty")          [C15]
